@@ -9,12 +9,14 @@ import (
 	"math/rand"
 	"net"
 	"os"
+	"runtime"
 	"strings"
 	"sync"
 	"sync/atomic"
 	"time"
 
 	"github.com/smallnest/rpcx/client"
+	rlog "github.com/smallnest/rpcx/log"
 	"github.com/smallnest/rpcx/protocol"
 	"github.com/smallnest/rpcx/share"
 )
@@ -27,6 +29,8 @@ import (
 //   rig conn Write          -> between encode and the write result
 //   rig conn Read           -> the reader is parked between frames
 //   context cancel + return -> the blocking caller's ctx.Done section
+//   trace line of input()   -> INSIDE the dispatch of a response: after the reader took the call out
+//                              of the pending table, before it completes it (events G / g)
 // A schedule releases one thread at a time and waits until it parks again (or finishes).
 
 const rigSerializeType = protocol.SerializeType(13)
@@ -49,10 +53,15 @@ type muxRig struct {
 	encGate  map[int]*rigGate
 	wrGate   map[int]*rigGate
 	readReq  chan struct{} // the reader asked for bytes
-	feed     chan []byte
-	feedErr  chan error
-	closed   bool
-	closedCh chan struct{}
+	rawIDs   map[int]bool  // ids of the SendRaw calls of this schedule
+	// the reader parks at its trace line between taking a call out of the table and completing it
+	dispHold    int32
+	dispArrived chan struct{}
+	dispRelease chan struct{}
+	feed        chan []byte
+	feedErr     chan error
+	closed      bool
+	closedCh    chan struct{}
 	// a ClientConnectionClose plugin that can be made to block (teardown in progress)
 	wdl         int64 // write deadline of the conn (unix nanoseconds, 0 = none)
 	plugHold    bool
@@ -73,6 +82,23 @@ func (p rigClosePlugin) ClientConnectionClose(net.Conn) error {
 		<-r.plugRelease
 	}
 	return nil
+}
+
+// rigLogger: the trace line `client.input received …` of the read loop sits between the removal of
+// the answered call from the pending table and its completion – a parking point inside a dispatch
+type rigLogger struct{ rlog.Logger }
+
+func (l rigLogger) Debugf(format string, v ...interface{}) {
+	if !strings.HasPrefix(format, "client.input received") {
+		return
+	}
+	r := getRig()
+	if r == nil || atomic.LoadInt32(&r.dispHold) == 0 {
+		return
+	}
+	atomic.StoreInt32(&r.dispHold, 0)
+	r.dispArrived <- struct{}{}
+	<-r.dispRelease
 }
 
 var curRig *muxRig
@@ -175,6 +201,14 @@ func (c rigConn) Write(p []byte) (int, error) {
 	if len(p) >= 8 {
 		id = int(binary.BigEndian.Uint64(p[len(p)-8:]))
 	}
+	// like a real conn, a write to a closed connection fails at once (only SendRaw ever gets as far
+	// as a write after the connection was closed: send() fails fast before)
+	r.mu.Lock()
+	failNow := r.closed && r.rawIDs[id]
+	r.mu.Unlock()
+	if failNow {
+		return 0, &net.OpError{Op: "write", Net: "verif", Err: net.ErrClosed}
+	}
 	g := r.gate(r.wrGate, id)
 	g.arrived <- struct{}{}
 	// parked inside Write: like a real conn, the write fails when the conn's write deadline passes
@@ -252,7 +286,7 @@ func init() {
 // ---- a scheduled run -------------------------------------------------------------------------
 
 type muxCall struct {
-	kind     byte // 'G' Go, 'B' blocking Call, 'O' one-way Go, 'N' Go with a raw []byte reply (aliases the response buffer)
+	kind     byte // 'G' Go, 'B' blocking Call, 'O' one-way Go, 'N' Go with a raw []byte reply (aliases the response buffer), 'R' SendRaw
 	raw      *[]byte
 	goCall   *client.Call
 	done     chan *client.Call
@@ -263,6 +297,7 @@ type muxCall struct {
 	deadline time.Time
 	phase    int // 0 fresh, 1 at-encode, 2 at-write, 3 written, 4 finished
 	seq      int
+	rawOut   []byte // 'R' (SendRaw): the payload it returned
 }
 
 // deadlineCtx: a context with a fixed Deadline whose expiry is triggered by the harness
@@ -357,7 +392,7 @@ func classifyMuxErr(err error, reply *rigReply) string {
 
 // runMuxSchedule executes the events on a fresh client and returns the observable line.
 func runMuxSchedule(kinds string, evs []string) (string, error) {
-	r := &muxRig{sendGate: map[int]*rigGate{}, encGate: map[int]*rigGate{}, wrGate: map[int]*rigGate{},
+	r := &muxRig{dispArrived: make(chan struct{}, 1), dispRelease: make(chan struct{}, 1), rawIDs: map[int]bool{}, sendGate: map[int]*rigGate{}, encGate: map[int]*rigGate{}, wrGate: map[int]*rigGate{},
 		readReq: make(chan struct{}, 1), feed: make(chan []byte), feedErr: make(chan error), closedCh: make(chan struct{}),
 		plugArrived: make(chan struct{}, 1), plugRelease: make(chan struct{}, 1)}
 	rigMu.Lock()
@@ -375,7 +410,40 @@ func runMuxSchedule(kinds string, evs []string) (string, error) {
 		}
 	}
 	opt.BidirectionalBlock = blocking
+	// schedules with a `G` event park the reader inside a dispatch (its trace line): tracing on, a
+	// logger that parks there, one P so that what a sync.Pool recycles is what the next caller gets
+	held := false
+	for _, e := range evs {
+		if e[0] == 'G' {
+			held = true
+		}
+	}
+	if held {
+		oldLogger, oldTrace, oldProcs := rlog.GetLogger(), share.Trace, runtime.GOMAXPROCS(1)
+		rlog.SetLogger(rigLogger{oldLogger})
+		share.Trace = true
+		defer func() {
+			share.Trace = oldTrace
+			rlog.SetLogger(oldLogger)
+			runtime.GOMAXPROCS(oldProcs)
+		}()
+	}
+	dispHeld := false
 	cl := client.NewClient(opt)
+	// IsShutdown / IsClosing take the client's mutex: asked through a goroutine with a time limit, so
+	// that a thread parked while HOLDING that mutex fails the schedule instead of hanging the harness
+	locked := func(f func() bool) bool {
+		ch := make(chan bool, 1)
+		go func() { ch <- f() }()
+		select {
+		case v := <-ch:
+			return v
+		case <-time.After(stepWait):
+			return false
+		}
+	}
+	isShutdown := func() bool { return locked(cl.IsShutdown) }
+	isClosing := func() bool { return locked(cl.IsClosing) }
 	pc := client.NewPluginContainer()
 	pc.Add(rigClosePlugin{r})
 	cl.Plugins = pc
@@ -453,6 +521,12 @@ func runMuxSchedule(kinds string, evs []string) (string, error) {
 			mc.cancel = cancel
 			mc.retCh = make(chan error, 1)
 			go func() { mc.retCh <- cl.Call(ctx, "Svc", "M", args, mc.reply) }()
+		case 'R':
+			// SendRaw runs entirely in its caller's goroutine and has no instrumentation point before
+			// its registration: it is started by its `r` event and parks inside Write
+			mc.retCh = make(chan error, 1)
+			calls[i] = mc
+			continue
 		}
 		calls[i] = mc
 		// every sender parks at the hook before registering
@@ -462,8 +536,19 @@ func runMuxSchedule(kinds string, evs []string) (string, error) {
 	}
 	terminated := false
 	nextSeq := 0
+	// the schedule's sequence numbers are the MODEL's (every registration takes the next one); the
+	// client's own counter only counts send() registrations, and a SendRaw call carries a number of
+	// the caller's choice, far away from the counter
+	seqMap := map[uint64]uint64{}
+	realNext := uint64(0)
+	realSeq := func(model uint64) uint64 {
+		if v, ok := seqMap[model]; ok {
+			return v
+		}
+		return 5000000 + model // a number no call has
+	}
 	awaitRet := func(mc *muxCall) {
-		if (mc.kind != 'B' && mc.kind != 'D') || mc.ret != nil {
+		if (mc.kind != 'B' && mc.kind != 'D' && mc.kind != 'R') || mc.ret != nil {
 			return
 		}
 		select {
@@ -484,7 +569,7 @@ func runMuxSchedule(kinds string, evs []string) (string, error) {
 				return "", errors.New("reader not reading at T")
 			}
 			deadline := time.Now().Add(stepWait)
-			for !cl.IsShutdown() {
+			for !isShutdown() {
 				if time.Now().After(deadline) {
 					return "", errors.New("reader did not terminate")
 				}
@@ -503,7 +588,7 @@ func runMuxSchedule(kinds string, evs []string) (string, error) {
 			parts := strings.Split(ev, ":")
 			fmt.Sscan(parts[1], &seq)
 			fmt.Sscan(parts[2], &cls)
-			full := buildResp(seq, "-", 77)
+			full := buildResp(realSeq(seq), "-", 77)
 			k := []int{1, 7, 14, 16 + (len(full)-16)/2, len(full) - 1}[cls%5]
 			select {
 			case r.feed <- full[:k]:
@@ -521,7 +606,7 @@ func runMuxSchedule(kinds string, evs []string) (string, error) {
 				return "", errors.New("reader not reading after partial frame")
 			}
 			deadline := time.Now().Add(stepWait)
-			for !cl.IsShutdown() {
+			for !isShutdown() {
 				if time.Now().After(deadline) {
 					return "", errors.New("reader did not terminate after a partial frame")
 				}
@@ -529,19 +614,77 @@ func runMuxSchedule(kinds string, evs []string) (string, error) {
 			}
 			terminated = true
 		case ev == "C":
-			cl.Close()
+			// (a Close that cannot get the client's mutex – a thread parked while holding it – must not
+			// take the harness down with it)
+			closed := make(chan struct{})
+			go func() { cl.Close(); close(closed) }()
+			select {
+			case <-closed:
+			case <-time.After(stepWait):
+				return "", errors.New("Close did not return")
+			}
 			// Close closes the conn: the reader's Read fails and it terminates
 			deadline := time.Now().Add(stepWait)
-			for !cl.IsShutdown() {
+			for !isShutdown() {
 				if time.Now().After(deadline) {
 					return "", errors.New("reader did not terminate after Close")
 				}
 				time.Sleep(50 * time.Microsecond)
 			}
 			terminated = true
+		case ev[0] == 'G':
+			// `G<i>:<q>:<tag>`: the response to call i (model sequence number q) arrives; the reader takes
+			// the call out of the pending table and is held BEFORE it completes it; meanwhile the
+			// caller's context ends (it finds nothing to remove and returns).  Model: `c<i>` now, and
+			// the frame – addressed to nobody any more – at `g:<q>:<tag>`.
+			var ci, tag int
+			var q uint64
+			parts := strings.Split(ev[1:], ":")
+			fmt.Sscan(parts[0], &ci)
+			fmt.Sscan(parts[1], &q)
+			fmt.Sscan(parts[2], &tag)
+			mc := calls[ci]
+			if terminated || dispHeld || mc.phase != 3 || mc.ret != nil || (mc.kind != 'B' && mc.kind != 'R') {
+				return "", errors.New("dispatch-hold event not enabled here")
+			}
+			atomic.StoreInt32(&r.dispHold, 1)
+			select {
+			case r.feed <- buildResp(realSeq(q), "-", tag):
+			case <-time.After(stepWait):
+				return "", errors.New("reader not reading at G")
+			}
+			select {
+			case <-r.dispArrived:
+			case <-time.After(stepWait):
+				return "", errors.New("reader did not reach its trace line inside the dispatch")
+			}
+			dispHeld = true
+			mc.cancel()
+			select {
+			case e := <-mc.retCh:
+				mc.ret = &e
+			case <-time.After(stepWait):
+				return "", errors.New("caller did not return after cancel (dispatch held)")
+			}
+		case ev[0] == 'g':
+			// `g:<q>:<tag>`: the held dispatch goes on (the model sees the frame, addressed to nobody, now)
+			if !dispHeld {
+				continue
+			}
+			r.dispRelease <- struct{}{}
+			dispHeld = false
+			select {
+			case <-r.readReq:
+			case <-time.After(stepWait):
+				return "", errors.New("reader did not come back after the held dispatch")
+			}
+			time.Sleep(300 * time.Microsecond)
 		case strings.HasPrefix(ev, "f:"):
 			if terminated {
 				continue
+			}
+			if dispHeld {
+				return "", errors.New("a frame while the reader is held inside a dispatch")
 			}
 			var seq uint64
 			var tag int
@@ -549,7 +692,7 @@ func runMuxSchedule(kinds string, evs []string) (string, error) {
 			fmt.Sscan(parts[1], &seq)
 			fmt.Sscan(parts[3], &tag)
 			select {
-			case r.feed <- buildResp(seq, parts[2], tag):
+			case r.feed <- buildResp(realSeq(seq), parts[2], tag):
 			case <-time.After(stepWait):
 				return "", errors.New("reader not reading at frame")
 			}
@@ -563,7 +706,7 @@ func runMuxSchedule(kinds string, evs []string) (string, error) {
 				case <-deadline:
 					return "", errors.New("reader did not come back after a frame")
 				case <-time.After(200 * time.Microsecond):
-					if cl.IsShutdown() {
+					if isShutdown() {
 						terminated = true // the reader tore the connection down by itself
 						break waitRead
 					}
@@ -599,6 +742,8 @@ func runMuxSchedule(kinds string, evs []string) (string, error) {
 				return "", err
 			}
 			mc.seq = nextSeq
+			seqMap[uint64(nextSeq)] = realNext
+			realNext++
 			nextSeq++
 			r.gate(r.encGate, id).release <- true
 			if err := waitArr(r.gate(r.wrGate, id), "write (during the notice hand-over)"); err != nil {
@@ -609,7 +754,7 @@ func runMuxSchedule(kinds string, evs []string) (string, error) {
 			time.Sleep(300 * time.Microsecond)
 			atomic.StoreInt32(&paused, 0)
 			deadline := time.Now().Add(stepWait)
-			for !cl.IsShutdown() {
+			for !isShutdown() {
 				if time.Now().After(deadline) {
 					return "", errors.New("reader did not terminate after the notice was taken")
 				}
@@ -637,7 +782,7 @@ func runMuxSchedule(kinds string, evs []string) (string, error) {
 			fmt.Sscan(ev[1:], &ci)
 			mc := calls[ci]
 			id := idBase + ci
-			if terminated || mc.phase != 0 || (ev[0] == 'K' && cl.IsClosing()) {
+			if terminated || mc.phase != 0 || (ev[0] == 'K' && isClosing()) {
 				return "", errors.New("overlapped teardown event not enabled here")
 			}
 			r.mu.Lock()
@@ -680,7 +825,7 @@ func runMuxSchedule(kinds string, evs []string) (string, error) {
 				}
 			}
 			deadline := time.Now().Add(stepWait)
-			for !cl.IsShutdown() {
+			for !isShutdown() {
 				if time.Now().After(deadline) {
 					return "", errors.New("reader did not terminate")
 				}
@@ -706,13 +851,84 @@ func runMuxSchedule(kinds string, evs []string) (string, error) {
 			fmt.Sscan(ev[1:], &ci)
 			mc := calls[ci]
 			id := idBase + ci
+			if mc.kind == 'R' {
+				// SendRaw: registration, write and wait all happen in the caller's goroutine
+				switch k {
+				case 'r':
+					if mc.phase != 0 {
+						continue
+					}
+					failFast := isShutdown() || isClosing()
+					real := uint64(1000000 + ci)
+					r.mu.Lock()
+					r.rawIDs[id] = true
+					r.mu.Unlock()
+					ctx, cancel := context.WithCancel(context.Background())
+					mc.cancel = cancel
+					msg := protocol.NewMessage()
+					msg.SetMessageType(protocol.Request)
+					msg.SetSerializeType(rigSerializeType)
+					msg.SetSeq(real)
+					msg.ServicePath, msg.ServiceMethod = "Svc", "M"
+					msg.Payload = make([]byte, 8)
+					binary.BigEndian.PutUint64(msg.Payload, uint64(id))
+					go func() {
+						_, payload, err := cl.SendRaw(ctx, msg)
+						mc.rawOut = payload
+						mc.retCh <- err
+					}()
+					if !failFast {
+						// registered under its own number, parked inside Write
+						if err := waitArr(r.gate(r.wrGate, id), "write (SendRaw)"); err != nil {
+							return "", err
+						}
+						mc.phase = 2
+						mc.seq = nextSeq
+						seqMap[uint64(nextSeq)] = real
+						nextSeq++
+					} else {
+						// no shutdown test in SendRaw: its write to the closed connection fails
+						select {
+						case e := <-mc.retCh:
+							mc.ret = &e
+						case <-time.After(stepWait):
+							return "", errors.New("SendRaw did not return after the connection was closed")
+						}
+						mc.phase = 4
+					}
+					continue
+				case 'e', 'y':
+					continue // no such step in SendRaw
+				case 'c':
+					if mc.ret != nil {
+						continue
+					}
+					select {
+					case e := <-mc.retCh:
+						mc.ret = &e
+						continue
+					default:
+					}
+					if mc.phase != 3 {
+						return "", errors.New("the context of a SendRaw caller is only looked at after its write")
+					}
+					mc.cancel()
+					select {
+					case e := <-mc.retCh:
+						mc.ret = &e
+					case <-time.After(stepWait):
+						return "", errors.New("SendRaw did not return after cancel")
+					}
+					continue
+				}
+			}
 			switch k {
 			case 'r':
 				if mc.phase != 0 {
 					continue
 				}
 				// which way will the sender go?  (flags only change in steps of this schedule)
-				failFast := cl.IsShutdown() || cl.IsClosing()
+				failFast := isShutdown() || isClosing()
 				r.gate(r.sendGate, id).release <- true
 				if !failFast {
 					// registered: the sender parks at Encode
@@ -721,6 +937,8 @@ func runMuxSchedule(kinds string, evs []string) (string, error) {
 					}
 					mc.phase = 1
 					mc.seq = nextSeq
+					seqMap[uint64(nextSeq)] = realNext
+					realNext++
 					nextSeq++
 				} else {
 					// fails fast with ErrShutdown and completes the call at once
@@ -814,7 +1032,7 @@ func runMuxSchedule(kinds string, evs []string) (string, error) {
 		}
 		// completions may have released blocking callers
 		for _, mc := range calls {
-			if (mc.kind == 'B' || mc.kind == 'D') && mc.ret == nil {
+			if (mc.kind == 'B' || mc.kind == 'D' || mc.kind == 'R') && mc.ret == nil {
 				select {
 				case e := <-mc.retCh:
 					mc.ret = &e
@@ -833,6 +1051,17 @@ func runMuxSchedule(kinds string, evs []string) (string, error) {
 				per = append(per, "ret=-")
 			} else {
 				per = append(per, "ret="+classifyMuxErr(*mc.ret, mc.reply))
+			}
+		case 'R':
+			awaitRet(mc)
+			if mc.ret == nil {
+				per = append(per, "ret=-")
+			} else {
+				rp := &rigReply{Tag: -1}
+				if len(mc.rawOut) == 8 {
+					rp.Tag = int(binary.BigEndian.Uint64(mc.rawOut))
+				}
+				per = append(per, "ret="+classifyMuxErr(*mc.ret, rp))
 			}
 		default:
 			n := len(mc.done)
@@ -883,12 +1112,20 @@ func runMuxSchedule(kinds string, evs []string) (string, error) {
 		ch = strings.Join(pushes, ",")
 	}
 	sd := "0"
-	if cl.IsShutdown() {
+	if isShutdown() {
 		sd = "1"
 	}
 	line := strings.Join(per, " ") + fmt.Sprintf(" | sd=%s chan=%s", sd, ch)
 	// tear down: release everything so that no goroutine stays parked
-	cl.Close()
+	if dispHeld {
+		r.dispRelease <- struct{}{}
+	}
+	closedAll := make(chan struct{})
+	go func() { cl.Close(); close(closedAll) }()
+	select {
+	case <-closedAll:
+	case <-time.After(stepWait): // a thread is parked while holding the client's mutex: release it below
+	}
 	r.mu.Lock()
 	for _, m := range []map[int]*rigGate{r.sendGate, r.encGate, r.wrGate} {
 		for _, g := range m {
@@ -913,7 +1150,7 @@ func genMuxSchedule(r *rand.Rand, focus string) (string, []string) {
 	n := 1 + r.Intn(4)
 	kinds := make([]byte, n)
 	for i := range kinds {
-		kinds[i] = "GGNNBBO"[r.Intn(7)]
+		kinds[i] = "GGNNBBOR"[r.Intn(8)]
 	}
 	if r.Intn(12) == 0 { // a caller with a context deadline (each costs up to 150 ms)
 		kinds[r.Intn(n)] = 'D'
@@ -923,6 +1160,8 @@ func genMuxSchedule(r *rand.Rand, focus string) (string, []string) {
 	}
 	phase := make([]int, n) // 0 fresh 1 registered 3 written 4 finished
 	seqOf := make([]int, n)
+	cancelled := make([]bool, n)
+	answered := make([]bool, n) // a response to the call's sequence number was generated after its registration
 	nextSeq := 0
 	terminated, closed := false, false
 	var evs []string
@@ -949,6 +1188,9 @@ func genMuxSchedule(r *rand.Rand, focus string) (string, []string) {
 					if y == 0 {
 						y = 2 // it has been encoded already: no encode failure any more
 					}
+				}
+				if kinds[c] == 'R' && y == 0 {
+					y = 2 // SendRaw has no encode step
 				}
 				switch {
 				case y == 0:
@@ -978,6 +1220,12 @@ func genMuxSchedule(r *rand.Rand, focus string) (string, []string) {
 			if len(written) > 0 && r.Intn(4) != 0 {
 				seq = seqOf[written[r.Intn(len(written))]]
 			}
+			toRaw := false
+			for c := range phase {
+				if kinds[c] == 'R' && phase[c] >= 1 && seqOf[c] == seq {
+					toRaw = true
+				}
+			}
 			switch r.Intn(10) {
 			case 9:
 				flags = "k" // response in a serialize type unknown to the client
@@ -985,6 +1233,9 @@ func genMuxSchedule(r *rand.Rand, focus string) (string, []string) {
 				flags = "E"
 			case 1:
 				flags = "u"
+				if toRaw {
+					flags = "-" // a raw call takes any payload as it is: nothing to mis-decode
+				}
 			case 2:
 				flags = "qo" // server push, possibly with a colliding seq
 			case 3:
@@ -994,22 +1245,61 @@ func genMuxSchedule(r *rand.Rand, focus string) (string, []string) {
 			}
 			evs = append(evs, fmt.Sprintf("f:%d:%s:%d", seq, flags, tag))
 			tag++
+			if !strings.Contains(flags, "q") {
+				for c := range phase {
+					if phase[c] >= 1 && phase[c] <= 3 && seqOf[c] == seq {
+						answered[c] = true
+					}
+				}
+			}
+		case x < 17 && !terminated && r.Intn(4) == 0: // a response held inside its dispatch while its caller gives up
+			var ws []int
+			for c := range kinds {
+				if (kinds[c] == 'B' || kinds[c] == 'R') && phase[c] == 3 && !cancelled[c] && !answered[c] {
+					ws = append(ws, c)
+				}
+			}
+			if len(ws) > 0 {
+				c := ws[r.Intn(len(ws))]
+				evs = append(evs, fmt.Sprintf("G%d:%d:%d", c, seqOf[c], tag))
+				cancelled[c] = true
+				// meanwhile other senders move (no frames, no teardown: the reader is held)
+				for k := r.Intn(3); k > 0; k-- {
+					o := r.Intn(n)
+					switch phase[o] {
+					case 0:
+						if !closed {
+							evs = append(evs, fmt.Sprintf("r%d", o))
+							phase[o] = 1
+							seqOf[o] = nextSeq
+							nextSeq++
+						}
+					case 1:
+						evs = append(evs, fmt.Sprintf("w%d", o))
+						phase[o] = 3
+					}
+				}
+				evs = append(evs, fmt.Sprintf("g:%d:%d", seqOf[c], tag))
+				tag++
+			}
 		case x < 17: // cancel a blocking caller
 			var bs []int
 			for c := range kinds {
-				if kinds[c] == 'B' || kinds[c] == 'D' {
+				if kinds[c] == 'B' || kinds[c] == 'D' || (kinds[c] == 'R' && phase[c] == 3) {
 					bs = append(bs, c)
 				}
 			}
 			if len(bs) > 0 {
-				evs = append(evs, fmt.Sprintf("c%d", bs[r.Intn(len(bs))]))
+				c := bs[r.Intn(len(bs))]
+				evs = append(evs, fmt.Sprintf("c%d", c))
+				cancelled[c] = true
 			}
 		case x == 17:
 			if !terminated {
 				// plain termination, or termination overlapped with a fresh call entering send()
 				var fresh []int
 				for c := range phase {
-					if phase[c] == 0 {
+					if phase[c] == 0 && kinds[c] != 'R' {
 						fresh = append(fresh, c)
 					}
 				}
